@@ -14,10 +14,11 @@ Open Scope Z_scope.
 Definition ed_l : Z := 2 ^ 252 + 27742317777372353535851937790883648493.
 
 Inductive case :=
-| CInputs (us : list (Z * list (N * N) * list N))   (* output type, keys (pointer id, value id), script bytes *)
+| CInputs (us : list (Z * list (N * N) * list N * N))   (* output type, keys (pointer id, value id), script bytes,
+                                                          lock: 0 none, 1 this payload hash, 2 another hash *)
           (sigs : list (list (N * option N)))        (* SignaturesMap: index -> signature id *)
           (ag : option (list Z))                     (* AggregatedSignature.Signers *)
-          (txType : Z)
+          (txType : Z) (fork : bool)
           (vtab : list (N * N)) (aggok : bool)
           (obs : res unit)                           (* validateInputs: nil / error / panic *)
 | CScript (s : list N) (sum : Z) (obs : bool)        (* Script.Validate(sum) == nil *)
@@ -28,8 +29,9 @@ Inductive case :=
      that the batch sum cancels for the coefficient pattern zs (all equal, period 2,
      small guessed weights); crypto.BatchVerify must still refuse *)
 
-Definition mk_utxo (u : Z * list (N * N) * list N) : utxo :=
-  mkUtxo (fst (fst u)) (map (fun p => mkKey (fst p) (snd p)) (snd (fst u))) (snd u).
+Definition mk_utxo (u : Z * list (N * N) * list N * N) : utxo :=
+  let '(t, ks, sc, lk) := u in
+  mkUtxo t (map (fun p => mkKey (fst p) (snd p)) ks) sc lk.
 
 Definition tab_ver (tab : list (N * N)) (k s : N) : bool :=
   existsb (fun p => (fst p =? k)%N && (snd p =? s)%N) tab.
@@ -39,11 +41,11 @@ Fixpoint ones (n : nat) (z : Z) : list Z :=
 
 Definition check (c : case) : bool :=
   match c with
-  | CInputs us sigs ag txType vtab aggok obs =>
+  | CInputs us sigs ag txType fork vtab aggok obs =>
       let ver := tab_ver vtab in
       let bat := forallb (fun e : N * N => ver (fst e) (snd e)) in
       let r := validate_inputs ver bat (fun _ _ => aggok) (map mk_utxo us) sigs
-                 (option_map (fun sg => (0%N, sg)) ag) txType in
+                 (option_map (fun sg => (0%N, sg)) ag) txType 1%N fork in
       res_class_eqb r obs
   | CScript s sum obs => Bool.eqb (script_validate s sum) obs
   | CVerify a r s k obs => Bool.eqb (verify ed_l (fun _ _ _ => k) a 0 r s) obs
